@@ -31,7 +31,7 @@ func enginePart(r *ev.Run) {
 			r.Violation("engine|panic", fmt.Sprintf("the engine's receive path panicked on a forged block: %v", p), nil)
 		}
 	}()
-	rounds := r.N(12, 120)
+	rounds := r.N(15, 150)
 	for round := 0; round < rounds; round++ {
 		rng := rand.New(rand.NewSource(r.Seed*6007 + int64(round)))
 		n, err := sn.NewNode(sn.DefaultConfig())
@@ -78,7 +78,7 @@ func enginePart(r *ev.Run) {
 		}
 		// the forged copy: header, id, signature of T; another body
 		F := sn.CloneBlock(T)
-		kind := []string{"award-redirected", "payment-redirected", "payment-dropped-award-doubled", "body-and-merkle-tree-replaced"}[round%4]
+		kind := []string{"award-redirected", "payment-redirected", "payment-dropped-award-doubled", "body-and-merkle-tree-replaced", "honest-body-merkle-tree-leaves-swapped"}[round%5]
 		switch kind {
 		case "award-redirected":
 			F.Transactions[0] = sn.AwardTx(thief.Address, n.Ledger.GenesisBlock.CalcAward(h+1), T.Timestamp)
@@ -87,12 +87,26 @@ func enginePart(r *ev.Run) {
 			F.Transactions[1] = x
 		case "payment-dropped-award-doubled":
 			F.Transactions[1] = sn.AwardTx(thief.Address, n.Ledger.GenesisBlock.CalcAward(h+1), T.Timestamp+1)
+		case "honest-body-merkle-tree-leaves-swapped":
+			// nothing that the id or the signature covers is touched: only the (unsigned) merkle_tree
+			// list, from whose leaves the ledger rebuilds a stored block's body
+			if len(F.MerkleTree) >= 2 {
+				F.MerkleTree[0], F.MerkleTree[1] = F.MerkleTree[1], F.MerkleTree[0]
+			}
 		case "body-and-merkle-tree-replaced":
 			F.Transactions[0] = sn.AwardTx(thief.Address, n.Ledger.GenesisBlock.CalcAward(h+1), T.Timestamp)
 			F.MerkleTree = ledger.MakeMerkleTree(F.Transactions) // consistent with the forged body; merkle_root (covered by the id) kept
 		}
 		F = sn.WireBlock(F)
 		audit := func(moment string) bool {
+			if kind == "honest-body-merkle-tree-leaves-swapped" {
+				// what counts is what comes back from STORAGE (the block cache still holds the body
+				// as it arrived): restart before looking
+				if err := n.Reopen(); err != nil {
+					r.Inconclusive("engine part: reopen failed: " + err.Error())
+					return false
+				}
+			}
 			for _, hb := range []*pb.InternalBlock{T, C} {
 				if !n.Ledger.ExistBlock(hb.Blockid) {
 					continue
